@@ -38,7 +38,7 @@ ASSUMPTIONS = [
 ]
 MIN = {'c01.submit_checks': 300, 'c01.exprs_evaluated': 100,
        'closure_compared': 40, 'ended_auto_shutdown': 20}
-NCASES = {'quick': 320, 'thorough': 4000}
+NCASES = {'quick': 1000, 'thorough': 12000}
 
 
 def ncases(tier):
